@@ -325,8 +325,27 @@ static int do_call(const char *fn, int a1, int a2, int a3, int a4)
 	} else if (!strcmp(fn, "smix_channel_pan")) {
 		ret = xmp_smix_channel_pan(ctx, a1, a2);
 	} else if (!strcmp(fn, "smix_load_sample")) {
-		/* a2: 0 mono WAV, 1 missing file, 2 a file that is not RIFF */
+		/* a2: the documented outcome class -- 0 a mono WAV (success), 1 a file that cannot be read
+		 * (-XMP_ERROR_SYSTEM), 2 a file that is not a usable mono PCM WAV (-XMP_ERROR_FORMAT);
+		 * a3 selects the file within the class (files written by tools/checks/c05.py make_wav):
+		 *   class 0: 0 8-bit, 1 16-bit (<wav>.16)
+		 *   class 1: 0 missing file, 1 data size larger than the file (<wav>.short)
+		 *   class 2: 0 a module, 1 data size 0xfffffffc (.neg), 2 4-bit (.b4), 3 1-bit (.b1),
+		 *            4 stereo (.st), 5 data size 0x7ffffffc (.big) */
+		static char alt[4096];
+		static const char *const sfx0[] = { "", ".16" };
+		static const char *const sfx1[] = { NULL, ".short" };
+		static const char *const sfx2[] = { NULL, ".neg", ".b4", ".b1", ".st", ".big" };
 		const char *path = a2 == 0 ? wavpath : a2 == 1 ? "/nonexistent/verif-c05.wav" : modpath[0];
+		const char *sfx = NULL;
+		if (a2 == 0 && a3 >= 0 && a3 < 2) sfx = sfx0[a3];
+		if (a2 == 1 && a3 >= 0 && a3 < 2) sfx = sfx1[a3];
+		if (a2 == 2 && a3 >= 0 && a3 < 6) sfx = sfx2[a3];
+		if (sfx != NULL && sfx[0]) {
+			snprintf(alt, sizeof(alt), "%s%s", wavpath, sfx);
+			if (access(alt, R_OK) == 0)
+				path = alt;
+		}
 		ret = xmp_smix_load_sample(ctx, a1, path);
 	} else if (!strcmp(fn, "smix_release_sample")) {
 		ret = xmp_smix_release_sample(ctx, a1);
@@ -508,7 +527,8 @@ static void random_call(void)
 	else if (r < 945) call("smix_channel_pan", gen_int(sx->chn), vrng_chance(60) ? vrng_range(0, 255) : gen_int(256), 0, 0);
 	else if (r < 970) {
 		t = (int)vrng_below(10);
-		call("smix_load_sample", gen_int(sx->ins), t < 7 ? 0 : t < 8 ? 1 : 2, 0, 0);
+		t = t < 6 ? 0 : t < 7 ? 1 : 2;
+		call("smix_load_sample", gen_int(sx->ins), t, (int)vrng_below(t == 2 ? 6 : 2), 0);
 	} else if (r < 985) call("smix_release_sample", gen_int(sx->ins), 0, 0, 0);
 	else call("end_smix", 0, 0, 0, 0);
 }
@@ -522,10 +542,24 @@ static void gen_sequence(int maxlen)
 	if (style >= 8 && n > 8) {
 		/* voice-lifetime cases start from a player with two loaded external samples */
 		call("start_smix", vrng_range(2, 4), vrng_range(2, 3), 0, 0);
-		call("smix_load_sample", 0, 0, 0, 0);
-		call("smix_load_sample", 1, 0, 0, 0);
+		call("smix_load_sample", 0, 0, (int)vrng_below(2), 0);
+		call("smix_load_sample", 1, 0, (int)vrng_below(2), 0);
 		call("load_module", (int)vrng_below(4), 1, (int)vrng_below((uint32_t)nmod), 0);
 		call("start_player", vrng_range(8000, 48000), (int)vrng_below(8), 0, 0);
+		/* every mixer table must serve every voice format: player flags (A500 Paula mixer, ...),
+		 * interpolation and DSP can only be chosen once the player runs */
+		if (vrng_chance(60)) {
+			call("set_player", vrng_chance(50) ? XMP_PLAYER_FLAGS : XMP_PLAYER_CFLAGS, (int)vrng_below(16), 0, 0);
+			n--;
+		}
+		if (vrng_chance(30)) {
+			call("set_player", XMP_PLAYER_INTERP, (int)vrng_below(3), 0, 0);
+			n--;
+		}
+		if (vrng_chance(20)) {
+			call("set_player", XMP_PLAYER_DSP, (int)vrng_below(2), 0, 0);
+			n--;
+		}
 		n -= 5;
 	} else if (style >= 2 && n > 4) {
 		if (style >= 7) {
@@ -559,7 +593,11 @@ static void gen_sequence(int maxlen)
 				call("smix_release_sample", slot, 0, 0, 0);
 				break;
 			case 4:
-				call("smix_load_sample", slot, 0, 0, 0);
+				/* a refused reload must leave the sounding sample alone */
+				if (vrng_chance(25))
+					call("smix_load_sample", slot, 2, (int)vrng_below(6), 0);
+				else
+					call("smix_load_sample", slot, 0, (int)vrng_below(2), 0);
 				break;
 			default:
 				call("play_frame", 0, 0, 0, 0);
